@@ -143,5 +143,8 @@ class SegmentEnd:
       return False
     return (self.name == other.name) and (self.end_type == other.end_type)
 
+  def __hash__(self):
+    return hash((self.name, self.end_type))
+
   def __getattr__(self, name):
     return getattr(self.__segment, name)
